@@ -208,7 +208,10 @@ class ExprAttribute(Expr):
     """The different parts of the dotted chain."""
 
     def iterate(self, *, flat: bool = True) -> Iterator[str | Expr]:
-        yield from _join([_operand(self.values[0], _ATOM), *self.values[1:]], ".", flat=flat)
+        first = self.values[0]
+        # `1.real` is not valid Python, `(1).real` is.
+        first = ("(", first, ")") if isinstance(first, str) and first.isdigit() else _operand(first, _ATOM)
+        yield from _join([first, *self.values[1:]], ".", flat=flat)
 
     def append(self, value: ExprName) -> None:
         """Append a name to this attribute.
